@@ -50,8 +50,12 @@ theorem pruneInits_signature (removed : List Name) : ∀ (d : Nat) (g : Graph),
 
 /-- **Interface.**  For every option tuple, annotation table and graph, the folding pass returns a
 graph with the same formal inputs (names and order — no input is ever dropped, added or renamed,
-in particular an initializer-input stays an input) and the same number of outputs; the declared
-output names are positional (`graph.outputs[i] = sym_value` after `sym_value.name = output.name`). -/
+in particular an initializer-input stays an input) and the same NUMBER of outputs.  Not stated
+here: that the outputs keep their declared names and types — in the real pass a redirected output
+takes the declared name (`sym_value.name = output.name`) on the value object, which this model (a
+value *is* its name, no types) does not represent; names, order, element types and declared shapes of
+the outputs are checked per generated model by the harness (open finding C04-D4 is a violation of
+exactly that unproved clause, in onnx_ir's CSE pass). -/
 theorem fold_signature (ctx : Ctx) (info : List (Name × VInfo)) (g : Graph) :
     (foldGraph ctx info g).2.inputs = g.inputs ∧ (foldGraph ctx info g).2.outputs.length = g.outputs.length := by
   simp only [foldGraph]
@@ -67,7 +71,8 @@ def OutOk (sym : List (Name × SymVal)) (nodes : List Node) (o o' : Name) : Prop
 
 /-- Every output of the result is either the original output or the alias the pass recorded for
 it, produced in the same graph — never anything else (`_sym_value_can_replace_graph_output`).
-Together with C03 `output_replacement_sound` this is the output half of the interface clause. -/
+A statement about the model's value identities (what C03 `output_replacement_sound` needs), not about
+declared output names or types. -/
 theorem replaceOutputs_only_aliases (nodes : List Node) : ∀ (outs : List Name) (st : St),
     Forall2 (OutOk st.sym nodes) outs (replaceOutputs st nodes outs).2
   | [], _ => Forall2.nil
@@ -89,7 +94,8 @@ theorem replaceOutputs_only_aliases (nodes : List Node) : ∀ (outs : List Name)
 
 /-! ### the graph-input guard -/
 
-/-- **Graph-input guard** (`any(x.is_graph_input() …)`): once a node reaches the gate cascade (no
+/-- **Graph-input guard** (`any(x.is_graph_input() …)`; a one-guard unfolding of the cascade, listed for the tie, not a
+headline result): once a node reaches the gate cascade (no
 partial evaluator replaced it), a single input that is a graph input — in particular an
 initializer that is also a graph input, whatever its default value — makes the cascade keep the
 node, for every size limit, `should_fold` callback, oracle table and state. -/
@@ -108,6 +114,7 @@ theorem graph_input_guard (ctx : Ctx) (st : St) (n : Node) (version : Nat) (x : 
       · exact ⟨_, rfl⟩
       · exact ⟨_, rfl⟩
 
+/-- helper of `generic_fold_requires` (one-guard unfolding; counted as an obligation, not a result) -/
 theorem emitFold_requires (ctx : Ctx) (st st' : St) (n n' : Node) (c : CInfo) (r : Repl)
     (h : emitFold ctx st n c = (.repl n' r, st')) : n.outputs.length = 1 := by
   unfold emitFold at h
@@ -167,7 +174,7 @@ theorem generic_fold_requires (ctx : Ctx) (st st' : St) (n n' : Node) (version :
 
 /-! ### overridable initializer-inputs are never read as constants (after fix 3131a7c) -/
 
-/-- **Initializer-inputs are never constants for an evaluator** (`_get_numpy_value` after commit
+/-- **Initializer-inputs are never constants for an evaluator** (a one-guard unfolding of `_get_numpy_value` after commit
 3131a7c): for a graph input — whatever `const_value` its default carries — every way an evaluator
 reads a constant (`_get_numpy_value` with any dtype filter and size limit, `_get_bool_value`)
 answers `None`; `get_shape_value` can then only come from the symbolic map.  Together with
@@ -209,7 +216,7 @@ theorem inference_never_reads_graph_input_default (st : St) (n : Node) (x : Name
       rw [this] at hc
       exact absurd hc (by simp)
 
-/-- `SplitToSequence` folding is only attempted from opset 18 on (commit 37e2648), so
+/-- (one-guard unfolding of the registry lookup) `SplitToSequence` folding is only attempted from opset 18 on (commit 37e2648), so
 `Split(num_outputs=…)` — an attribute that exists from opset 18 — is never emitted below it. -/
 theorem split_to_sequence_needs_opset18 (n : Node) (v : Nat) (hop : n.op = "SplitToSequence") (hv : v < 18) :
     (lookupEvaluator n v).isNone = true := by
@@ -240,8 +247,10 @@ theorem no_dangling_fragment (ctx : Ctx) (hnf : ctx.isFunction = false) (info : 
 option tuple and annotation table, the nodes of the result are a sub-list of the input's nodes in
 their original order — nothing is reordered, duplicated or invented — hence the order condition
 (`orderOK`: no node mentions an output of a later node, i.e. single assignment + definition before
-use among the nodes) carries over from the input to the result; together with `no_dangling_fragment`
-(no popped initializer is still referenced) and `fold_signature` (inputs/outputs kept). -/
+use among the nodes) carries over from the input to the result.  The statement is about the node list
+returned by `visitGraph`, i.e. BEFORE the popped initializers are pruned; that pruning leaves no
+dangling reference is the separate theorem `no_dangling_fragment`.  (Superseded on the larger fragment A
+by `fold_closed_fragmentA` / `fold_ssa_fragmentA`, which include pruning.) -/
 theorem fold_wf_fragment (ctx : Ctx) (hnf : ctx.isFunction = false) (info : List (Name × VInfo)) (g : Graph)
     (hplain : ∀ n ∈ g.nodes, Plain n) (hord : orderOK g.nodes = true) :
     List.Sublist (visitGraph ctx maxDepth (initialState g info) g).2.nodes g.nodes ∧
@@ -580,16 +589,21 @@ theorem repeated_element_no_nameclash :
 def foldPass (ctxOf : Graph → Ctx) (infoOf : Graph → List (Name × VInfo)) (g : Graph) : Graph × Bool :=
   ((foldGraph (ctxOf g) (infoOf g) g).2, (foldGraph (ctxOf g) (infoOf g) g).1.modified)
 
-/-- **The interface survives the whole pipeline** (`optimize_ir`: `[Inline]`, then `num_iterations ×` (fold, NameFix when
+/-- **The interface survives the whole pipeline — RELATIVE TO CONTRACTS for all nine passes that are not the folding
+pass** (`C : RelContracts Iface P`: inline, rewrite, remove-unused, lift constants, lift subgraph initializers,
+deduplicate, CSE, OutputFix, NameFix are *assumed* to keep the interface; they are parameters, not modelled; one of
+these contracts is observed false for the stronger "declared type kept" clause: C04-D4).  What is proved is the
+composition and the folding pass's own part.  (`optimize_ir`: `[Inline]`, then `num_iterations ×` (fold, NameFix when
 modified, rewrite, remove-unused), then remove-unused, lift constants, lift subgraph initializers, deduplicate, CSE,
 OutputFix, NameFix — the order `OV.Model.C03Pass.optimizeIr` restates and `pipeline_order_matches_source` ties to the
 source).  For every option tuple (`num_iterations`, `stop_if_no_change`, `inline`, and any size limits / `should_fold` /
 opset imports / annotations the folding pass is run with, which may change from iteration to iteration): if each
 onnx_ir pass and the rewrite pass keeps the interface (`RelContracts Iface`, the contract A-ir), then the result of the
 pipeline has the same formal inputs in the same order, the same number of outputs, and every initializer that is also a
-formal input — a default the caller may override — still has its initializer.  The folding pass needs no contract: its
-part is `fold_signature` + `overridable_inputs_kept`, for all graphs. -/
-theorem optimize_interface (P : IrPasses) (C : RelContracts Iface P) (ctxOf : Graph → Ctx)
+formal input — a default the caller may override — still has its initializer (`Iface`: input names/order, output COUNT,
+defaults kept — not output names or types).  The folding pass needs no contract: its part is `fold_signature` +
+`overridable_inputs_kept`, for all graphs. -/
+theorem optimize_interface_contract (P : IrPasses) (C : RelContracts Iface P) (ctxOf : Graph → Ctx)
     (infoOf : Graph → List (Name × VInfo)) (o : OptOpts) (g : Graph) :
     Iface (optimizeIr P (foldPass ctxOf infoOf) o g) g := by
   apply optimizeIr_rel Iface Iface.refl (fun h1 h2 => Iface.trans h1 h2) P C
@@ -605,7 +619,7 @@ def demoPasses : IrPasses :=
     liftConstants := fun g => Graph.mk g.inputs (g.inits ++ [("lifted", "t9")]) g.nodes g.outputs,
     liftSubgraphInits := id, dedup := id, cse := id, outputFix := id, nameFix := id }
 
-/-- non-vacuity of `optimize_interface`: the contracts are satisfiable by passes that are not the identity … -/
+/-- non-vacuity of `optimize_interface_contract`: the contracts are satisfiable by passes that are not the identity … -/
 theorem demoPasses_contracts : RelContracts Iface demoPasses :=
   { inline := fun g => Iface.refl g, rewrite := fun g => Iface.refl g,
     dce := fun g => ⟨rfl, rfl, fun _ _ h => h⟩,
@@ -634,7 +648,8 @@ theorem foldFunction_eq (ctx : Ctx) (info : List (Name × VInfo)) (g : Graph) :
   rcases foldGraph ctx info g with ⟨st, g'⟩
   rfl
 
-/-- **A function body returned by the pass holds no initializer** (they would be dropped when the function is
+/-- **A function body returned by the pass holds no initializer — under the hypothesis that the run ended without an
+error (`err = none`)** (they would be dropped when the function is
 serialized): whenever the pass ends without an error, for every option tuple, annotation table and body. -/
 theorem foldFunction_no_initializers (ctx : Ctx) (info : List (Name × VInfo)) (g : Graph)
     (h : (foldFunction ctx info g).1.err = none) : (foldFunction ctx info g).2.inits = [] := by
@@ -668,7 +683,7 @@ theorem function_cleanup_closed (st : St) (g : Graph) (sc : List Name) (hcl : Gr
     GraphClosed sc (initsToConstants st g).2 :=
   initsToConstants_closed st g sc hcl
 
-/-- **The clean-up keeps single assignment**: initializer names and node outputs stay pairwise distinct and no node output
+/-- **The clean-up keeps single assignment — under the hypothesis `hni` (no initializer is a formal input)**: initializer names and node outputs stay pairwise distinct and no node output
 is a formal input, for bodies none of whose initializers is a formal input (function inputs have no defaults). -/
 theorem function_cleanup_ssa (st : St) (g : Graph) (hssa : SSA g) (hni : ∀ x, x ∈ g.inits.map (·.1) → x ∉ g.inputs) :
     SSA (initsToConstants st g).2 :=
@@ -774,8 +789,8 @@ theorem fold_step_never_raises (ctx : Ctx) (st : St) (n : Node) (c : CInfo) (m :
 /-- the condition under which the pre-fix code raised: the display name of the value being folded is a registered name -/
 def clashBeforeFix (st : St) (n : Node) : Bool := st.initDisplay.contains (st.display (n.outputs.headD ""))
 
-/-- `makeRoom` is the whole difference: when the pre-fix code would have raised, the name registered afterwards is a new
-one, not among the registered names -/
+/-- regression example (`decide` on two concrete states, NOT a universal statement): when the pre-fix code would have
+raised, `makeRoom` makes the name registered afterwards a new one (`t_2`); for a graph output the holder is renamed -/
 theorem rename_gives_unregistered_name :
     clashBeforeFix { initDisplay := ["t", "t_1"] } (.mk "Add" "" [] ["t"] [] []) = true ∧
     (makeRoom { initDisplay := ["t", "t_1"] } "t").display "t" = "t_2" ∧
@@ -820,13 +835,14 @@ theorem pipeline_order_matches_source :
     OV.Gen.C04Pipeline.defaultInline = true := by
   decide +kernel
 
-/-- **The interface survives the pipeline as the source lists it**: `optimize_interface` for the list-driven
-`optimizeSpec` (`optimizeSpec_eq`: interpreting the three lists *is* `optimizeIr`). -/
-theorem optimize_interface_source_order (P : IrPasses) (C : RelContracts Iface P) (ctxOf : Graph → Ctx)
+/-- **The interface survives the pipeline as the source lists it — relative to the same nine pass contracts**:
+`optimize_interface_contract` for the list-driven `optimizeSpec` (`optimizeSpec_eq`: interpreting the three lists *is*
+`optimizeIr`). -/
+theorem optimize_interface_source_order_contract (P : IrPasses) (C : RelContracts Iface P) (ctxOf : Graph → Ctx)
     (infoOf : Graph → List (Name × VInfo)) (o : OptOpts) (g : Graph) :
     Iface (optimizeSpec P (foldPass ctxOf infoOf) o g) g := by
   rw [optimizeSpec_eq]
-  exact optimize_interface P C ctxOf infoOf o g
+  exact optimize_interface_contract P C ctxOf infoOf o g
 
 /-! ### distinct outputs stay distinct -/
 
@@ -834,8 +850,9 @@ theorem optimize_interface_source_order (P : IrPasses) (C : RelContracts Iface P
 evaluated against the outputs *as already redirected*): if the outputs of a graph are pairwise distinct and recorded as
 graph outputs in the state, the outputs after the redirection loop are pairwise distinct again — two outputs that copy
 the same interior value are not both redirected to it: the first takes it, the second stays (`out:alreadyoutput`).  For
-every state (symbolic map, node list).  Together with `replaceOutputs_only_aliases` and `fold_signature` this is the
-output half of "the declared outputs keep their names and order". -/
+every symbolic map and node list, UNDER THE HYPOTHESES `outs.Nodup` and `outs ⊆ st.gouts`; at the level of the output loop
+(`replaceOutputs`), not lifted to `foldGraph` (that the state reaching the loop still records all outputs is not proved).
+About the model's value identities; declared output names and types are not in the model (checked per model). -/
 theorem redirected_outputs_distinct (nodes : List Node) (outs : List Name) (st : St)
     (hnd : outs.Nodup) (hin : ∀ o, o ∈ outs → o ∈ st.gouts) : (replaceOutputs st nodes outs).2.Nodup :=
   (replaceOutputs_distinct nodes outs st hnd hin).1
